@@ -63,6 +63,26 @@ fn main() {
         let lu1 = lspec1.universe();
         ctx.run_slice(Slice::new(format!("lax-typed-single[{}]", lspec1.name()), lu1.count(), |i, loc| check_lax_single(&lu1.get(i), loc)));
     }
+    // spider / half_spider are checked constructors too (shared with C04): every (leg, declared codomain, leg, declared
+    // codomain, node list) with legs of length <= 2 into <= 3
+    let mut acc: Vec<(Vec<usize>, usize, Vec<usize>, usize, Vec<u8>)> = vec![];
+    for sm in 0..=3usize {
+        for s in lists(sm, 2) {
+            for tm in 0..=3usize {
+                for t in lists(tm, 2) {
+                    for n in 0..=3usize {
+                        for w in ohmc_core::uni::tables(n, 2) {
+                            acc.push((s.clone(), sm, t.clone(), tm, w.iter().map(|&x| x as u8).collect()));
+                        }
+                    }
+                }
+            }
+        }
+    }
+    ctx.run_slice(Slice::new("raw-spider/half_spider[legs<=2 into <=3, |w|<=3]", acc.len() as u64, |i, loc| {
+        let c = &acc[i as usize];
+        ohmc::props::c04::check_spider_acceptance::<B>(&c.0, c.1, &c.2, c.3, &c.4, loc)
+    }));
     // the other checked constructors on raw data (shared with C06 / C08)
     let c6 = C06::new(true);
     let n6 = c6.families.iter().find(|f| f.0 == "new").unwrap().1;
